@@ -106,6 +106,27 @@ Proof.
   - destruct x; [discriminate|]. cbn in E. rewrite (K _ H E). reflexivity.
 Qed.
 
+Lemma ren_stmt_t_no_with : forall rho st, with_targets st = [] -> ren_stmt_t rho st = ren_stmt rho st.
+Proof.
+  intros rho.
+  assert (K : forall l, Forall (fun st => with_targets st = [] -> ren_stmt_t rho st = ren_stmt rho st) l ->
+              flat_map with_targets l = [] -> map (ren_stmt_t rho) l = map (ren_stmt rho) l).
+  { induction 1 as [|x l Hx Hl IH]; cbn; auto. intro E. apply app_eq_nil in E. destruct E as [E1 E2].
+    rewrite (Hx E1), (IH E2). reflexivity. }
+  induction st using stmt_ind'; cbn; auto; intro E.
+  - rewrite (K _ H E). reflexivity.
+  - apply app_eq_nil in E. destruct E as [E1 E2]. rewrite (K _ H E1), (K _ H0 E2). reflexivity.
+  - rewrite (K _ H E). reflexivity.
+  - rewrite (K _ H E). reflexivity.
+  - destruct x; [discriminate|]. cbn in E. rewrite (K _ H E). reflexivity.
+Qed.
+
+Lemma ren_block_t_no_with : forall rho b, flat_map with_targets b = [] -> ren_block_t rho b = ren_block rho b.
+Proof.
+  intros rho b. unfold ren_block_t, ren_block. induction b as [|x l IH]; cbn; auto. intro E.
+  apply app_eq_nil in E. destruct E as [E1 E2]. rewrite (ren_stmt_t_no_with _ _ E1), (IH E2). reflexivity.
+Qed.
+
 Lemma wt_ok_block_no_with : forall rho b, flat_map with_targets b = [] -> wt_ok_block rho b = true.
 Proof.
   intros rho b. unfold wt_ok_block. induction b as [|x l IH]; cbn; auto. intro E.
@@ -281,9 +302,11 @@ Variable V : list ident.
 Variable sel : nat -> bool.
 Variable impl : ident -> option func.
 Variable rc : bool.
+Variable fwt fhdr : bool.
+Variable rex : nat -> bool.
 
 Lemma inl_expr_nocall : forall fl e st, has_call e = false ->
-  inl_expr V sel impl rc fl e st = Some ([], e, st).
+  inl_expr V sel impl rc fwt fhdr rex fl e st = Some ([], e, st).
 Proof.
   intros fl e st H. destruct e; cbn [inl_expr]; rewrite H; reflexivity.
 Qed.
@@ -298,7 +321,7 @@ Qed.
 
 Lemma ga_gen_nocall : forall ie rho, (forall a st, has_call a = false -> ie a st = Some ([], a, st)) ->
   forall args qs st l st', existsb has_call args = false ->
-  ga_gen ie rho args qs st = Some (l, st') ->
+  ga_gen ie rho false args qs st = Some (l, st') ->
   l = bind_list rho qs args /\ st' = st /\ List.length args = List.length qs.
 Proof.
   intros ie rho Hie. induction args as [|a args IH]; intros qs st l st' H Hg.
@@ -306,42 +329,47 @@ Proof.
   - destruct qs as [|q qs]; cbn in Hg; [discriminate|].
     cbn in H. apply orb_false_iff in H. destruct H as [Ha He].
     rewrite (Hie _ _ Ha) in Hg.
-    destruct (ga_gen ie rho args qs st) as [[p2 st2]|] eqn:E; [|discriminate].
+    destruct (ga_gen ie rho false args qs st) as [[p2 st2]|] eqn:E; [|discriminate].
     destruct (IH _ _ _ _ He E) as (-> & -> & Hl). inversion Hg; subst. cbn. auto.
 Qed.
 
-(* what the model does at a call whose arguments are call-free *)
+(* what the model does at a call (not in a `with` header) whose arguments are call-free *)
 Lemma inl_call_inv : forall fl g args st pre e' st',
+  fl_hdr fl = false ->
   existsb has_call args = false ->
-  inl_expr V sel impl rc fl (ECall g args) st = Some (pre, e', st') ->
+  inl_expr V sel impl rc fwt fhdr rex fl (ECall g args) st = Some (pre, e', st') ->
   exists fn', impl g = Some fn' /\
     ((pre = [] /\ e' = ECall g args) \/
      (exists subst t body',
         fl_while fl = false /\ count_ret_block (f_body fn') = 1%nat /\
-        rr_block t (ren_block (perm_of subst) (f_body fn')) = Some body' /\
+        rr_block t ((if fwt then ren_block_t (perm_of subst) else ren_block (perm_of subst)) (f_body fn')) = Some body' /\
         fresh_ok V (perm_of subst) fn' body' t = true /\
         List.length args = List.length (f_params fn') /\
         pre = bind_list (perm_of subst) (f_params fn') args ++ wrap_body fl fn' body' /\
         e' = EVar t)).
 Proof.
-  intros fl g args st pre e' st' Hargs H.
+  intros fl g args st pre e' st' Hh Hargs H.
   cbn [inl_expr has_call negb] in H.
   destruct (impl g) as [fn'|] eqn:Ei; [|discriminate]. exists fn'. split; [reflexivity|].
-  assert (Hie : forall a st0, has_call a = false -> inl_expr V sel impl rc fl a st0 = Some ([], a, st0))
+  assert (Hie : forall a st0, has_call a = false -> inl_expr V sel impl rc fwt fhdr rex fl a st0 = Some ([], a, st0))
     by (intros; apply inl_expr_nocall; assumption).
-  destruct (fl_while fl || negb (Nat.eqb (count_ret_block (f_body fn')) 1)) eqn:Eref.
+  match type of H with (if ?c then _ else _) = _ => destruct c eqn:Eref end.
   { rewrite (il_gen_nocall _ Hie _ _ Hargs) in H. inversion H; subst. left; auto. }
+  apply orb_false_iff in Eref. destruct Eref as [Eref _].
   apply orb_false_iff in Eref. destruct Eref as [Ew Ec]. apply negb_false_iff, Nat.eqb_eq in Ec.
+  cbn [is_idx is_used is_ctr is_occ] in H.
   destruct (negb (sel (is_idx st))).
   { rewrite (il_gen_nocall _ Hie _ _ Hargs) in H. inversion H; subst. left; auto. }
   match type of H with match refresh_all ?a ?b with _ => _ end = _ =>
     destruct (refresh_all a b) as [[subst st1]|]; [|discriminate] end.
-  destruct (with_target_clash (perm_of subst) fn'); [discriminate|].
-  match type of H with match ga_gen ?a ?b ?c ?d ?e with _ => _ end = _ =>
-    destruct (ga_gen a b c d e) as [[pa st2]|] eqn:Eg; [|discriminate] end.
+  match type of H with (if ?c then _ else _) = _ => destruct c; [discriminate|] end.
+  rewrite Hh, andb_false_r in H.
+  match type of H with match ga_gen ?a ?b ?h ?c ?d ?e with _ => _ end = _ =>
+    destruct (ga_gen a b h c d e) as [[pa st2]|] eqn:Eg; [|discriminate] end.
   destruct (ga_gen_nocall _ _ Hie _ _ _ _ _ Hargs Eg) as (-> & -> & Hl).
   destruct (refresh "t" st1) as [[t st3]|]; [|discriminate].
-  destruct (rr_block t (ren_block (perm_of subst) (f_body fn'))) as [body'|] eqn:Er; [|discriminate].
+  match type of H with match rr_block t ?b with _ => _ end = _ =>
+    destruct (rr_block t b) as [body'|] eqn:Er; [|discriminate] end.
   destruct (fresh_ok V (perm_of subst) fn' body' t) eqn:Ef; [|discriminate].
   inversion H; subst. right. exists subst, t, body'. repeat split; auto.
 Qed.
@@ -596,6 +624,8 @@ Variable V : list ident.
 Variable sel : nat -> bool.
 Variable impl : ident -> option func.
 Variable rc : bool.
+Variable fwt fhdr : bool.
+Variable rex : nat -> bool.
 
 (* fn' can stand for fn at any call (same value, same store) *)
 Definition call_sim (fn fn' : func) : Prop :=
@@ -744,21 +774,25 @@ Qed.
 (* an expression in a position where a call may be inlined *)
 Lemma expr_site : forall e st pre e' st' n s mu C v mu' T,
   site_expr e = true ->
-  inl_expr V sel impl rc F0 e st = Some (pre, e', st') ->
+  inl_expr V sel impl rc fwt fhdr rex F0 e st = Some (pre, e', st') ->
   eval N P n s mu C e = ROk (v, mu') -> Inv s T ->
   exists T2 mu2, XB N P T mu C pre (ONormal T2, mu2) /\ XE N P T2 mu2 C e' (v, mu') /\ Inv s T2.
 Proof.
   intros e st pre e' st' n s mu C v mu' T Hs Hi He HI.
   destruct (has_call e) eqn:Hc.
-  2:{ rewrite (inl_expr_nocall V sel impl rc _ _ _ Hc) in Hi. inversion Hi; subst.
+  2:{ rewrite (inl_expr_nocall V sel impl rc fwt fhdr rex _ _ _ Hc) in Hi. inversion Hi; subst.
       exists T, mu. split; [apply XB_nil|]. split; [|exact HI].
       exists n. eapply eval_frame; eauto. apply (proj1 HI). }
   destruct e; cbn [site_expr] in Hs; try (rewrite Hc in Hs; discriminate).
   apply negb_true_iff in Hs.
-  destruct (inl_call_inv V sel impl rc _ _ _ _ _ _ _ Hs Hi) as (fn' & Himp & [[-> ->]|Hin]).
+  destruct (inl_call_inv V sel impl rc fwt fhdr rex F0 _ _ _ _ _ _ eq_refl Hs Hi) as (fn' & Himp & [[-> ->]|Hin]).
   - exists T, mu. split; [apply XB_nil|]. split; [|exact HI].
     exists n. eapply eval_frame; eauto. apply (proj1 HI).
   - destruct Hin as (subst & t & body' & _ & Hcnt & Hrr & Hf & Hlen & -> & ->).
+    assert (Hrr' : rr_block t (ren_block (perm_of subst) (f_body fn')) = Some body').
+    { destruct (Himpl _ _ Himp) as (_ & _ & _ & Hnw0).
+      destruct fwt; [rewrite <- (ren_block_t_no_with _ _ Hnw0)|]; exact Hrr. }
+    clear Hrr. rename Hrr' into Hrr.
     destruct n as [|n]; [discriminate|]. simpl in He.
     destruct (lookup_fn P f) as [fn|] eqn:El; [|discriminate].
     bstep.
@@ -771,19 +805,19 @@ Definition tgt_in (b : block) : Prop := forall z, In z (block_targets b) -> In z
 
 Definition CE (n : nat) : Prop := forall st sg l sg' s mu C o mu' T,
   sform st = true -> (forall z, In z (stmt_targets st) -> In z V) ->
-  inl_stmt V sel impl rc st sg = Some (l, sg') ->
+  inl_stmt V sel impl rc fwt fhdr rex st sg = Some (l, sg') ->
   exec N P n s mu C st = ROk (o, mu') -> Inv s T ->
   exists o', XB N P T mu C l (o', mu') /\ orelV o o'.
 
 Definition CB (n : nat) : Prop := forall b sg b' sg' s mu C o mu' T,
   sform_block b = true -> tgt_in b ->
-  inl_block V sel impl rc b sg = Some (b', sg') ->
+  inl_block V sel impl rc fwt fhdr rex b sg = Some (b', sg') ->
   exec_block N P n s mu C b = ROk (o, mu') -> Inv s T ->
   exists o', XB N P T mu C b' (o', mu') /\ orelV o o'.
 
 Definition CF (n : nat) : Prop := forall body sg body' sg' p l i s mu C o mu' T,
   sform_block body = true -> tgt_in body -> (forall z, In z (pat_vars p) -> In z V) ->
-  inl_block V sel impl rc body sg = Some (body', sg') ->
+  inl_block V sel impl rc fwt fhdr rex body sg = Some (body', sg') ->
   for_loop N P n s mu C p l i body = ROk (o, mu') -> Inv s T ->
   exists o', XF N P T mu C p l i body' (o', mu') /\ orelV o o'.
 
@@ -798,8 +832,8 @@ Proof. auto. Qed.
 
 Ltac nocall_in H :=
   repeat match type of H with
-  | context [inl_expr V sel impl rc ?fl ?e ?st] =>
-      rewrite (inl_expr_nocall V sel impl rc fl e st) in H by assumption
+  | context [inl_expr V sel impl rc fwt fhdr rex ?fl ?e ?st] =>
+      rewrite (inl_expr_nocall V sel impl rc fwt fhdr rex fl e st) in H by assumption
   end.
 
 Ltac split_sform Hs :=
@@ -812,7 +846,7 @@ Proof.
   destruct st.
   - (* SAssign *)
     cbn [sform] in Hs. cbn [inl_stmt] in Hi.
-    destruct (inl_expr V sel impl rc F0 e sg) as [[[pre e'] sg1]|] eqn:Ee; [|discriminate].
+    destruct (inl_expr V sel impl rc fwt fhdr rex F0 e sg) as [[[pre e'] sg1]|] eqn:Ee; [|discriminate].
     inversion Hi; subst l sg'. clear Hi.
     simpl in H. bstep. destruct (bind_pat p v s) as [s1|] eqn:Eb; [|discriminate].
     cbn [lift rbind] in H. inversion H; subst o mu'. clear H.
@@ -825,11 +859,11 @@ Proof.
       eapply bind_pat_keeps; eauto.
   - (* SIndexAssign *)
     split_sform Hs. cbn [inl_stmt] in Hi. unfold inl_exprs in Hi.
-    rewrite (il_gen_nocall _ (fun a st0 Ha => inl_expr_nocall V sel impl rc F0 a st0 Ha) _ _ Hs) in Hi.
+    rewrite (il_gen_nocall _ (fun a st0 Ha => inl_expr_nocall V sel impl rc fwt fhdr rex F0 a st0 Ha) _ _ Hs) in Hi.
     nocall_in Hi. inversion Hi; subst. eapply leaf_case; eauto.
   - (* SIf1 *)
     split_sform Hs. cbn [inl_stmt] in Hi. nocall_in Hi.
-    destruct (ib_gen (inl_stmt V sel impl rc) body sg) as [[body' sg2]|] eqn:Eb; [|discriminate].
+    destruct (ib_gen (inl_stmt V sel impl rc fwt fhdr rex) body sg) as [[body' sg2]|] eqn:Eb; [|discriminate].
     inversion Hi; subst l sg'. clear Hi. cbn [app].
     simpl in H. repeat bstep. destruct v; try discriminate. cbn in E0. inversion E0; subst a. clear E0.
     assert (Hc : XE N P T mu C c (VBool b, s0)) by (exists n; eapply eval_frame; eauto; apply (proj1 HI)).
@@ -839,8 +873,8 @@ Proof.
     + inversion H; subst. exists (ONormal T). split; [|exact HI]. apply XB_single. apply XS_if1_false. exact Hc.
   - (* SIf *)
     split_sform Hs. cbn [inl_stmt] in Hi. nocall_in Hi.
-    destruct (ib_gen (inl_stmt V sel impl rc) ift sg) as [[b1' sg2]|] eqn:Eb1; [|discriminate].
-    destruct (ib_gen (inl_stmt V sel impl rc) iff sg2) as [[b2' sg3]|] eqn:Eb2; [|discriminate].
+    destruct (ib_gen (inl_stmt V sel impl rc fwt fhdr rex) ift sg) as [[b1' sg2]|] eqn:Eb1; [|discriminate].
+    destruct (ib_gen (inl_stmt V sel impl rc fwt fhdr rex) iff sg2) as [[b2' sg3]|] eqn:Eb2; [|discriminate].
     inversion Hi; subst l sg'. clear Hi. cbn [app].
     simpl in H. repeat bstep. destruct v; try discriminate. cbn in E0. inversion E0; subst a. clear E0.
     assert (Hc : XE N P T mu C c (VBool b, s0)) by (exists n; eapply eval_frame; eauto; apply (proj1 HI)).
@@ -854,7 +888,7 @@ Proof.
   - (* SWhile *)
     pose proof Hi as Hi0. pose proof Hs as Hs00.
     split_sform Hs. cbn [inl_stmt] in Hi. nocall_in Hi.
-    destruct (ib_gen (inl_stmt V sel impl rc) body sg) as [[body' sg2]|] eqn:Eb; [|discriminate].
+    destruct (ib_gen (inl_stmt V sel impl rc fwt fhdr rex) body sg) as [[body' sg2]|] eqn:Eb; [|discriminate].
     inversion Hi; subst l sg'. clear Hi. cbn [app].
     simpl in H. repeat bstep. destruct v; try discriminate. cbn in E0. inversion E0; subst a. clear E0.
     assert (Hc : XE N P T mu C c (VBool b, s0)) by (exists n; eapply eval_frame; eauto; apply (proj1 HI)).
@@ -870,7 +904,7 @@ Proof.
     + inversion H; subst. exists (ONormal T). split; [|exact HI]. apply XB_single. apply XS_while_false. exact Hc.
   - (* SFor *)
     split_sform Hs. cbn [inl_stmt] in Hi. nocall_in Hi.
-    destruct (ib_gen (inl_stmt V sel impl rc) body sg) as [[body' sg2]|] eqn:Eb; [|discriminate].
+    destruct (ib_gen (inl_stmt V sel impl rc fwt fhdr rex) body sg) as [[body' sg2]|] eqn:Eb; [|discriminate].
     inversion Hi; subst l sg'. clear Hi. cbn [app].
     simpl in H. repeat bstep.
     assert (Hc : XE N P T mu C it (v, s0)) by (exists n; eapply eval_frame; eauto; apply (proj1 HI)).
@@ -880,7 +914,7 @@ Proof.
     exists o'. split; [|exact Ho]. apply XB_single. eapply XS_for; eauto.
   - (* SContext *)
     split_sform Hs. cbn [inl_stmt] in Hi. nocall_in Hi.
-    destruct (ib_gen (inl_stmt V sel impl rc) body sg) as [[body' sg2]|] eqn:Eb; [|discriminate].
+    destruct (ib_gen (inl_stmt V sel impl rc fwt fhdr rex) body sg) as [[body' sg2]|] eqn:Eb; [|discriminate].
     inversion Hi; subst l sg'. clear Hi. cbn [app].
     simpl in H. bstep. destruct v; try discriminate.
     assert (Hc : XE N P T mu CReal e (VCtx c, s0)) by (exists n; eapply eval_frame; eauto; apply (proj1 HI)).
@@ -897,7 +931,7 @@ Proof.
     split_sform Hs. cbn [inl_stmt] in Hi. nocall_in Hi. inversion Hi; subst. eapply leaf_case; eauto.
   - (* SEffect *)
     cbn [sform] in Hs. cbn [inl_stmt] in Hi.
-    destruct (inl_expr V sel impl rc F0 e sg) as [[[pre e'] sg1]|] eqn:Ee; [|discriminate].
+    destruct (inl_expr V sel impl rc fwt fhdr rex F0 e sg) as [[[pre e'] sg1]|] eqn:Ee; [|discriminate].
     inversion Hi; subst l sg'. clear Hi.
     simpl in H. bstep. inversion H; subst o mu'. clear H.
     destruct (expr_site _ _ _ _ _ _ _ _ _ _ _ _ Hs Ee E HI) as (T2 & mu2 & Hx & Hv & HI2).
@@ -905,7 +939,7 @@ Proof.
     eapply XB_app; [exact Hx|]. apply XB_single. eapply XS_effect; eauto.
   - (* SReturn *)
     cbn [sform] in Hs. cbn [inl_stmt] in Hi.
-    destruct (inl_expr V sel impl rc F0 e sg) as [[[pre e'] sg1]|] eqn:Ee; [|discriminate].
+    destruct (inl_expr V sel impl rc fwt fhdr rex F0 e sg) as [[[pre e'] sg1]|] eqn:Ee; [|discriminate].
     inversion Hi; subst l sg'. clear Hi.
     simpl in H. bstep. inversion H; subst o mu'. clear H.
     destruct (expr_site _ _ _ _ _ _ _ _ _ _ _ _ Hs Ee E HI) as (T2 & mu2 & Hx & Hv & HI2).
@@ -923,8 +957,8 @@ Proof.
   - cbn in Hi. inversion Hi; subst. rewrite exec_block_nil in H. inversion H; subst.
     exists (ONormal T). split; [apply XB_nil|exact HI].
   - unfold inl_block in Hi. cbn [ib_gen] in Hi.
-    destruct (inl_stmt V sel impl rc st sg) as [[l1 sg1]|] eqn:E1; [|discriminate].
-    destruct (ib_gen (inl_stmt V sel impl rc) b sg1) as [[l2 sg2]|] eqn:E2; [|discriminate].
+    destruct (inl_stmt V sel impl rc fwt fhdr rex st sg) as [[l1 sg1]|] eqn:E1; [|discriminate].
+    destruct (ib_gen (inl_stmt V sel impl rc fwt fhdr rex) b sg1) as [[l2 sg2]|] eqn:E2; [|discriminate].
     inversion Hi; subst b' sg'. clear Hi.
     unfold sform_block in Hs. cbn [forallb] in Hs. apply andb_prop in Hs. destruct Hs as [Hs1 Hs2].
     destruct (tgt_in_cons _ _ HW) as [HW1 HW2].
@@ -970,18 +1004,23 @@ Variable V : list ident.
 Variable sel : nat -> bool.
 Variable impl : ident -> option func.
 Variable rc : bool.
+Variable fwt fhdr : bool.
+Variable rex : nat -> bool.
 Hypothesis Hnw : forall g fn', impl g = Some fn' -> flat_map with_targets (f_body fn') = [].
 
 Lemma nw_site_expr : forall e st pre e' st', site_expr e = true ->
-  inl_expr V sel impl rc F0 e st = Some (pre, e', st') -> flat_map with_targets pre = [].
+  inl_expr V sel impl rc fwt fhdr rex F0 e st = Some (pre, e', st') -> flat_map with_targets pre = [].
 Proof.
   intros e st pre e' st' Hs Hi.
   destruct (has_call e) eqn:Hc.
-  2:{ rewrite (inl_expr_nocall V sel impl rc _ _ _ Hc) in Hi. inversion Hi; subst. reflexivity. }
+  2:{ rewrite (inl_expr_nocall V sel impl rc fwt fhdr rex _ _ _ Hc) in Hi. inversion Hi; subst. reflexivity. }
   destruct e; cbn [site_expr] in Hs; try (rewrite Hc in Hs; discriminate).
   apply negb_true_iff in Hs.
-  destruct (inl_call_inv V sel impl rc _ _ _ _ _ _ _ Hs Hi) as (fn' & Himp & [[-> ->]|Hin]); [reflexivity|].
+  destruct (inl_call_inv V sel impl rc fwt fhdr rex F0 _ _ _ _ _ _ eq_refl Hs Hi) as (fn' & Himp & [[-> ->]|Hin]); [reflexivity|].
   destruct Hin as (subst & t & body' & _ & _ & Hrr & _ & _ & -> & _).
+  assert (Hrr' : rr_block t (ren_block (perm_of subst) (f_body fn')) = Some body').
+  { destruct fwt; [rewrite <- (ren_block_t_no_with _ _ (Hnw _ _ Himp))|]; exact Hrr. }
+  clear Hrr. rename Hrr' into Hrr.
   rewrite flat_map_app, with_targets_bind_list. cbn [app].
   unfold wrap_body. cbn [fl_hdr F0].
   pose proof (with_targets_rr _ _ _ Hrr) as K. rewrite with_targets_ren_block, (Hnw _ _ Himp) in K.
@@ -989,71 +1028,71 @@ Proof.
 Qed.
 
 Lemma nw_inl_stmt : forall st sg l sg', sform st = true -> with_targets st = [] ->
-  inl_stmt V sel impl rc st sg = Some (l, sg') -> flat_map with_targets l = [].
+  inl_stmt V sel impl rc fwt fhdr rex st sg = Some (l, sg') -> flat_map with_targets l = [].
 Proof.
   assert (K : forall body, Forall (fun st => forall sg l sg', sform st = true -> with_targets st = [] ->
-                inl_stmt V sel impl rc st sg = Some (l, sg') -> flat_map with_targets l = []) body ->
+                inl_stmt V sel impl rc fwt fhdr rex st sg = Some (l, sg') -> flat_map with_targets l = []) body ->
               forall sg body' sg', forallb sform body = true -> flat_map with_targets body = [] ->
-              ib_gen (inl_stmt V sel impl rc) body sg = Some (body', sg') -> flat_map with_targets body' = []).
+              ib_gen (inl_stmt V sel impl rc fwt fhdr rex) body sg = Some (body', sg') -> flat_map with_targets body' = []).
   { induction 1 as [|x r Hx Hr IH]; intros sg body' sg' Hs Hw Hi.
     - cbn in Hi. inversion Hi; subst. reflexivity.
     - cbn [ib_gen] in Hi.
-      destruct (inl_stmt V sel impl rc x sg) as [[l1 sg1]|] eqn:E1; [|discriminate].
-      destruct (ib_gen (inl_stmt V sel impl rc) r sg1) as [[l2 sg2]|] eqn:E2; [|discriminate].
+      destruct (inl_stmt V sel impl rc fwt fhdr rex x sg) as [[l1 sg1]|] eqn:E1; [|discriminate].
+      destruct (ib_gen (inl_stmt V sel impl rc fwt fhdr rex) r sg1) as [[l2 sg2]|] eqn:E2; [|discriminate].
       inversion Hi; subst. cbn in Hs, Hw. apply andb_prop in Hs. destruct Hs as [Hs1 Hs2].
       apply app_eq_nil in Hw. destruct Hw as [Hw1 Hw2].
       rewrite flat_map_app, (Hx _ _ _ Hs1 Hw1 E1), (IH _ _ _ Hs2 Hw2 E2). reflexivity. }
   induction st using stmt_ind'; intros sg l sg' Hs Hw Hi.
   - cbn [sform] in Hs. cbn [inl_stmt] in Hi.
-    destruct (inl_expr V sel impl rc F0 e sg) as [[[pre e'] sg1]|] eqn:Ee; [|discriminate].
+    destruct (inl_expr V sel impl rc fwt fhdr rex F0 e sg) as [[[pre e'] sg1]|] eqn:Ee; [|discriminate].
     inversion Hi; subst. rewrite flat_map_app, (nw_site_expr _ _ _ _ _ Hs Ee). reflexivity.
   - cbn [sform] in Hs. apply andb_prop in Hs. destruct Hs as [Hs1 Hs2].
     apply negb_true_iff in Hs1. apply negb_true_iff in Hs2.
     cbn [inl_stmt] in Hi. unfold inl_exprs in Hi.
-    rewrite (il_gen_nocall _ (fun a st0 Ha => inl_expr_nocall V sel impl rc F0 a st0 Ha) _ _ Hs1) in Hi.
-    rewrite (inl_expr_nocall V sel impl rc _ _ _ Hs2) in Hi. inversion Hi; subst. reflexivity.
+    rewrite (il_gen_nocall _ (fun a st0 Ha => inl_expr_nocall V sel impl rc fwt fhdr rex F0 a st0 Ha) _ _ Hs1) in Hi.
+    rewrite (inl_expr_nocall V sel impl rc fwt fhdr rex _ _ _ Hs2) in Hi. inversion Hi; subst. reflexivity.
   - cbn [sform] in Hs. apply andb_prop in Hs. destruct Hs as [Hs1 Hs2]. apply negb_true_iff in Hs1.
-    cbn [inl_stmt] in Hi. rewrite (inl_expr_nocall V sel impl rc _ _ _ Hs1) in Hi.
-    destruct (ib_gen (inl_stmt V sel impl rc) body sg) as [[body' sg2]|] eqn:Eb; [|discriminate].
+    cbn [inl_stmt] in Hi. rewrite (inl_expr_nocall V sel impl rc fwt fhdr rex _ _ _ Hs1) in Hi.
+    destruct (ib_gen (inl_stmt V sel impl rc fwt fhdr rex) body sg) as [[body' sg2]|] eqn:Eb; [|discriminate].
     inversion Hi; subst. cbn. rewrite (K _ H _ _ _ Hs2 Hw Eb). reflexivity.
   - cbn [sform] in Hs. apply andb_prop in Hs. destruct Hs as [Hs Hs3]. apply andb_prop in Hs. destruct Hs as [Hs1 Hs2].
     apply negb_true_iff in Hs1. cbn in Hw. apply app_eq_nil in Hw. destruct Hw as [Hw1 Hw2].
-    cbn [inl_stmt] in Hi. rewrite (inl_expr_nocall V sel impl rc _ _ _ Hs1) in Hi.
-    destruct (ib_gen (inl_stmt V sel impl rc) ift sg) as [[b1' sg2]|] eqn:Eb1; [|discriminate].
-    destruct (ib_gen (inl_stmt V sel impl rc) iff sg2) as [[b2' sg3]|] eqn:Eb2; [|discriminate].
+    cbn [inl_stmt] in Hi. rewrite (inl_expr_nocall V sel impl rc fwt fhdr rex _ _ _ Hs1) in Hi.
+    destruct (ib_gen (inl_stmt V sel impl rc fwt fhdr rex) ift sg) as [[b1' sg2]|] eqn:Eb1; [|discriminate].
+    destruct (ib_gen (inl_stmt V sel impl rc fwt fhdr rex) iff sg2) as [[b2' sg3]|] eqn:Eb2; [|discriminate].
     inversion Hi; subst. cbn. rewrite (K _ H _ _ _ Hs2 Hw1 Eb1), (K _ H0 _ _ _ Hs3 Hw2 Eb2). reflexivity.
   - cbn [sform] in Hs. apply andb_prop in Hs. destruct Hs as [Hs1 Hs2]. apply negb_true_iff in Hs1.
-    cbn [inl_stmt] in Hi. rewrite (inl_expr_nocall V sel impl rc _ _ _ Hs1) in Hi.
-    destruct (ib_gen (inl_stmt V sel impl rc) body sg) as [[body' sg2]|] eqn:Eb; [|discriminate].
+    cbn [inl_stmt] in Hi. rewrite (inl_expr_nocall V sel impl rc fwt fhdr rex _ _ _ Hs1) in Hi.
+    destruct (ib_gen (inl_stmt V sel impl rc fwt fhdr rex) body sg) as [[body' sg2]|] eqn:Eb; [|discriminate].
     inversion Hi; subst. cbn. rewrite (K _ H _ _ _ Hs2 Hw Eb). reflexivity.
   - cbn [sform] in Hs. apply andb_prop in Hs. destruct Hs as [Hs1 Hs2]. apply negb_true_iff in Hs1.
-    cbn [inl_stmt] in Hi. rewrite (inl_expr_nocall V sel impl rc _ _ _ Hs1) in Hi.
-    destruct (ib_gen (inl_stmt V sel impl rc) body sg) as [[body' sg2]|] eqn:Eb; [|discriminate].
+    cbn [inl_stmt] in Hi. rewrite (inl_expr_nocall V sel impl rc fwt fhdr rex _ _ _ Hs1) in Hi.
+    destruct (ib_gen (inl_stmt V sel impl rc fwt fhdr rex) body sg) as [[body' sg2]|] eqn:Eb; [|discriminate].
     inversion Hi; subst. cbn. rewrite (K _ H _ _ _ Hs2 Hw Eb). reflexivity.
   - cbn [sform] in Hs. apply andb_prop in Hs. destruct Hs as [Hs1 Hs2]. apply negb_true_iff in Hs1.
     cbn in Hw. destruct x; [discriminate|]. cbn in Hw.
-    cbn [inl_stmt] in Hi. rewrite (inl_expr_nocall V sel impl rc _ _ _ Hs1) in Hi.
-    destruct (ib_gen (inl_stmt V sel impl rc) body sg) as [[body' sg2]|] eqn:Eb; [|discriminate].
+    cbn [inl_stmt] in Hi. rewrite (inl_expr_nocall V sel impl rc fwt fhdr rex _ _ _ Hs1) in Hi.
+    destruct (ib_gen (inl_stmt V sel impl rc fwt fhdr rex) body sg) as [[body' sg2]|] eqn:Eb; [|discriminate].
     inversion Hi; subst. cbn. rewrite (K _ H _ _ _ Hs2 Hw Eb). reflexivity.
   - cbn [sform] in Hs. apply negb_true_iff in Hs.
-    cbn [inl_stmt] in Hi. rewrite (inl_expr_nocall V sel impl rc _ _ _ Hs) in Hi. inversion Hi; subst. reflexivity.
+    cbn [inl_stmt] in Hi. rewrite (inl_expr_nocall V sel impl rc fwt fhdr rex _ _ _ Hs) in Hi. inversion Hi; subst. reflexivity.
   - cbn [sform] in Hs. cbn [inl_stmt] in Hi.
-    destruct (inl_expr V sel impl rc F0 e sg) as [[[pre e'] sg1]|] eqn:Ee; [|discriminate].
+    destruct (inl_expr V sel impl rc fwt fhdr rex F0 e sg) as [[[pre e'] sg1]|] eqn:Ee; [|discriminate].
     inversion Hi; subst. rewrite flat_map_app, (nw_site_expr _ _ _ _ _ Hs Ee). reflexivity.
   - cbn [sform] in Hs. cbn [inl_stmt] in Hi.
-    destruct (inl_expr V sel impl rc F0 e sg) as [[[pre e'] sg1]|] eqn:Ee; [|discriminate].
+    destruct (inl_expr V sel impl rc fwt fhdr rex F0 e sg) as [[[pre e'] sg1]|] eqn:Ee; [|discriminate].
     inversion Hi; subst. rewrite flat_map_app, (nw_site_expr _ _ _ _ _ Hs Ee). reflexivity.
   - cbn in Hi. inversion Hi; subst. reflexivity.
 Qed.
 
 Lemma nw_inl_block : forall b sg b' sg', sform_block b = true -> flat_map with_targets b = [] ->
-  inl_block V sel impl rc b sg = Some (b', sg') -> flat_map with_targets b' = [].
+  inl_block V sel impl rc fwt fhdr rex b sg = Some (b', sg') -> flat_map with_targets b' = [].
 Proof.
   unfold inl_block, sform_block. induction b as [|x r IH]; intros sg b' sg' Hs Hw Hi.
   - cbn in Hi. inversion Hi; subst. reflexivity.
   - cbn [ib_gen] in Hi.
-    destruct (inl_stmt V sel impl rc x sg) as [[l1 sg1]|] eqn:E1; [|discriminate].
-    destruct (ib_gen (inl_stmt V sel impl rc) r sg1) as [[l2 sg2]|] eqn:E2; [|discriminate].
+    destruct (inl_stmt V sel impl rc fwt fhdr rex x sg) as [[l1 sg1]|] eqn:E1; [|discriminate].
+    destruct (ib_gen (inl_stmt V sel impl rc fwt fhdr rex) r sg1) as [[l2 sg2]|] eqn:E2; [|discriminate].
     inversion Hi; subst. cbn in Hs, Hw. apply andb_prop in Hs. destruct Hs as [Hs1 Hs2].
     apply app_eq_nil in Hw. destruct Hw as [Hw1 Hw2].
     rewrite flat_map_app, (nw_inl_stmt _ _ _ _ Hs1 Hw1 E1), (IH _ _ _ Hs2 Hw2 E2). reflexivity.
@@ -1082,17 +1121,17 @@ Definition impl_ok (impl : ident -> option func) : Prop :=
 Lemma call_sim_refl : forall fn, call_sim N P fn fn.
 Proof. intros fn n vs mu C r H. exists n. exact H. Qed.
 
-Theorem inline_fn_sound : forall impl rc wh fn fn',
+Theorem inline_fn_sound : forall fx fname impl rc wh fn fn',
   impl_ok impl -> fn_ok fn = true ->
-  inline_fn impl rc wh fn = Some fn' ->
+  inline_fn fx fname impl rc wh fn = Some fn' ->
   call_sim N P fn fn' /\ flat_map with_targets (f_body fn') = [].
 Proof.
-  intros impl rc wh fn fn' Himpl Hok Hi.
+  intros fx fname impl rc wh fn fn' Himpl Hok Hi.
   unfold fn_ok in Hok. apply andb_prop in Hok. destruct Hok as [Hs Hw]. apply no_with_spec in Hw.
   unfold inline_fn in Hi.
   set (V := func_names fn) in *.
   set (sel := fun i => match wh with None => true | Some k => Nat.eqb i k end) in *.
-  destruct (inl_block V sel impl rc (f_body fn) (ist0 fn)) as [[body' sg]|] eqn:Eb; [|discriminate].
+  destruct (inl_block V sel impl rc (fx_wt fx) (fx_hdr fx) (fx_ref fx fname) (f_body fn) (ist0 fn)) as [[body' sg]|] eqn:Eb; [|discriminate].
   assert (Hfn : fn' = Func (f_params fn) (f_ctx fn) body').
   { destruct wh; [destruct (Nat.ltb n (is_idx sg)); [|discriminate]|]; inversion Hi; reflexivity. }
   subst fn'. clear Hi. split.
@@ -1108,7 +1147,7 @@ Proof.
     intro Hin. apply Hz. unfold V, func_names. apply in_or_app. left. exact Hin. }
   assert (HW : tgt_in V (f_body fn)).
   { intros z Hz. unfold V, func_names. apply in_or_app. right. apply block_targets_names. exact Hz. }
-  destruct (proj1 (proj2 (C_all N P V sel impl rc Himpl n)) _ _ _ _ _ _ _ _ _ _ Hs HW Eb Ex HI)
+  destruct (proj1 (proj2 (C_all N P V sel impl rc (fx_wt fx) (fx_hdr fx) (fx_ref fx fname) Himpl n)) _ _ _ _ _ _ _ _ _ _ Hs HW Eb Ex HI)
     as (o' & [m Hx] & Ho).
   destruct o' as [T'|v']; cbn in Ho; [contradiction|]. subst v'.
   exists (S m). rewrite call_unfold. cbn [f_params f_ctx f_body]. rewrite Ebp. cbn [lift rbind].
@@ -1123,30 +1162,35 @@ Proof.
 Qed.
 
 (* recursive=True: every callee is flattened first (bottom-up), then spliced *)
-Theorem inline_full_sound : prog_ok P = true -> forall d fn fn',
-  fn_ok fn = true -> inline_full P d fn = Some fn' ->
+Theorem inline_full_sound : prog_ok P = true -> forall fx d fname fn fn',
+  fn_ok fn = true -> inline_full fx P d fname fn = Some fn' ->
   call_sim N P fn fn' /\ flat_map with_targets (f_body fn') = [].
 Proof.
-  intros Hp. induction d as [|d IH]; intros fn fn' Hok Hi; [discriminate|].
+  intros Hp fx. induction d as [|d IH]; intros fname fn fn' Hok Hi; [discriminate|].
   cbn [inline_full] in Hi. eapply inline_fn_sound; [|exact Hok|exact Hi].
   intros g fg' Hg. destruct (lookup_fn P g) as [fg|] eqn:El; [|discriminate].
-  exists fg. split; [reflexivity|]. apply IH; [|exact Hg]. eapply prog_ok_lookup; eauto.
+  exists fg. split; [reflexivity|]. apply (IH g); [|exact Hg]. eapply prog_ok_lookup; eauto.
 Qed.
 
-(* inline(f, where, recursive): one site / all sites, flattened callees / one level *)
-Theorem inline_call_sim : prog_ok P = true -> forall d recursive wh fn fn',
-  fn_ok fn = true -> inline P d recursive wh fn = Some fn' -> call_sim N P fn fn'.
+(* inline(f, where, recursive): one site / all sites, flattened callees / one level; with or without
+   the proposed repairs *)
+Theorem inline_x_call_sim : prog_ok P = true -> forall fx d recursive wh fname fn fn',
+  fn_ok fn = true -> inline_x fx P d recursive wh fname fn = Some fn' -> call_sim N P fn fn'.
 Proof.
-  intros Hp d recursive wh fn fn' Hok Hi. destruct d as [|d]; [discriminate|]. cbn [inline] in Hi.
+  intros Hp fx d recursive wh fname fn fn' Hok Hi. destruct d as [|d]; [discriminate|]. cbn [inline_x] in Hi.
   destruct recursive.
-  - eapply (proj1 (inline_fn_sound _ _ _ _ _ _ Hok Hi)).
+  - eapply (proj1 (inline_fn_sound _ _ _ _ _ _ _ _ Hok Hi)).
     Unshelve. intros g fg' Hg. destruct (lookup_fn P g) as [fg|] eqn:El; [|discriminate].
-    exists fg. split; [reflexivity|]. apply (inline_full_sound Hp d); [|exact Hg]. eapply prog_ok_lookup; eauto.
-  - eapply (proj1 (inline_fn_sound _ _ _ _ _ _ Hok Hi)).
+    exists fg. split; [reflexivity|]. apply (inline_full_sound Hp fx d g); [|exact Hg]. eapply prog_ok_lookup; eauto.
+  - eapply (proj1 (inline_fn_sound _ _ _ _ _ _ _ _ Hok Hi)).
     Unshelve. intros g fg' Hg. exists fg'. split; [exact Hg|]. split; [apply call_sim_refl|].
     pose proof (prog_ok_lookup _ _ Hp Hg) as K. unfold fn_ok in K. apply andb_prop in K. destruct K as [_ K].
     apply no_with_spec. exact K.
 Qed.
+
+Theorem inline_call_sim : prog_ok P = true -> forall d recursive wh fn fn',
+  fn_ok fn = true -> inline P d recursive wh fn = Some fn' -> call_sim N P fn fn'.
+Proof. intros Hp d recursive wh fn fn' Hok Hi. eapply inline_x_call_sim; eauto. Qed.
 
 End Pass.
 
@@ -1180,6 +1224,16 @@ Proof.
   exists (Nat.max n m). unfold run. rewrite (lookup_app_new _ _ _ Hn), Ei.
   rewrite (call_up N _ m (Nat.max n m) _ _ _ _ _ (Nat.le_max_r _ _) Hc). cbn [rbind].
   rewrite (extract_mono n (Nat.max n m) _ _ _ Ee (Nat.le_max_l _ _)). reflexivity.
+Qed.
+
+Theorem inline_x_sound : forall N P fx d recursive wh f fn fn' f',
+  prog_ok P = true -> lookup_fn P f = Some fn -> lookup_fn P f' = None ->
+  inline_x fx P d recursive wh f fn = Some fn' ->
+  forall n args c v, run N P n f args c = ROk v ->
+  exists m, run N (P ++ [(f', fn')]) m f' args c = ROk v.
+Proof.
+  intros N P fx d recursive wh f fn fn' f' Hp Hl Hn Hi.
+  eapply call_sim_run; eauto. eapply inline_x_call_sim; eauto. eapply prog_ok_lookup; eauto.
 Qed.
 
 Theorem inline_sound : forall N P d recursive wh f fn fn' f',
